@@ -104,7 +104,11 @@ def prepare():
         if os.path.exists(cdir):
             shutil.rmtree(cdir)
         t0 = time.time()
-        scratch = os.path.join(SCRATCH_ROOT, 'verif-8086.%d' % os.getpid())
+        # one fixed scratch path per /verif directory (builds are serialised by the lock above): cargo keys
+        # its fingerprints by package path, so a new path per run would grow the target directories, and a
+        # path that happens to be reused (pid reuse) with rsync-preserved mtimes would look 'fresh' to cargo
+        # and skip build.rs, leaving a stale generated parser in the copy
+        scratch = os.path.join(SCRATCH_ROOT, 'verif-8086.' + hashlib.sha256(VERIF.encode()).hexdigest()[:10])
         if os.path.exists(scratch):
             shutil.rmtree(scratch)
         os.makedirs(scratch)
@@ -144,7 +148,9 @@ def _errors(out):
 
 
 def _build(tree, cdir):
-    sh(['rsync', '-a', '--exclude', 'target', '--exclude', '.git', REPO + '/', tree + '/'])
+    # --no-times: every file of the copy is newer than any earlier build of this path, so cargo rebuilds the
+    # crate (and re-runs build.rs, which regenerates the parsers from the current .lalrpop sources)
+    sh(['rsync', '-a', '--no-times', '--exclude', 'target', '--exclude', '.git', REPO + '/', tree + '/'])
     tdir = os.path.join(CACHE, 'target-native')
     # 1. native build: build.rs regenerates the four parsers from the current .lalrpop sources
     p = sh(['cargo', 'build', '--offline', '--target-dir', tdir], cwd=tree, check=False, timeout=1200)
@@ -158,7 +164,7 @@ def _build(tree, cdir):
     for point, g in info['grammars'].items():
         ginfo[point] = {'productions': [[p.lhs, p.syms, p.action] for p in g.prods],
                         'leaves': {k: [t for _, t in v] for k, v in info['leaves'][point].items()}}
-    json.dump({'grammars': ginfo, 'harness_files': info['harness_files'], 'kf_active': kf_active, 'skipped': info.get('skipped', {})},
+    json.dump({'grammars': ginfo, 'harness_files': info['harness_files'], 'kf_active': kf_active, 'skipped': info.get('skipped', {}), 'driver_copies': info.get('driver_copies')},
               open(os.path.join(cdir, 'info.json'), 'w'))
     # 3. native replay binaries (dev profile = the profile Kani models; release = what users run)
     env = dict(ENV, RUSTFLAGS='--cfg verif_native -A warnings')
